@@ -67,7 +67,7 @@ func newPeer(config PeerConfig, id uint32, plugin Plugin, options peerOptions) *
 
 // getFSMTransitionCh returns the stateTransition channel for the provided FSM.
 func (p *peer) getFSMTransitionCh(f *fsm) chan stateTransition {
-	if f == p.fsms[out] {
+	if f.direction == out {
 		return p.transitionCh[out]
 	}
 	return p.transitionCh[in]
@@ -75,7 +75,7 @@ func (p *peer) getFSMTransitionCh(f *fsm) chan stateTransition {
 
 // getFSMErrorCh returns the error channel for the provided FSM.
 func (p *peer) getFSMErrorCh(f *fsm) chan error {
-	if f == p.fsms[out] {
+	if f.direction == out {
 		return p.errorCh[out]
 	}
 	return p.errorCh[in]
@@ -119,6 +119,7 @@ func (p *peer) enableFSM(i int, conn net.Conn) {
 	}
 	if p.fsms[i] == nil {
 		p.fsms[i] = newFSM(p, conn)
+		p.fsms[i].direction = i
 		p.fsmState[i] = disabledState
 		p.fsms[i].start()
 	}
